@@ -608,6 +608,10 @@ func (b *builder) call(c *ssa.Call) *Expr {
 			e.Args = append(e.Args, &Expr{Op: "ref", Args: []*Expr{b.rd.at(c, al, nil)}, V: al})
 			continue
 		}
+		if cv, ok := b.rd.trackedRecord(a).(*ssa.Call); ok && cv != nil {
+			e.Args = append(e.Args, &Expr{Op: "ref", Args: []*Expr{b.rd.at(c, cv, nil)}, V: cv})
+			continue
+		}
 		e.Args = append(e.Args, b.expr(a))
 	}
 	// a plumbing helper (in-scope, effect-free, outside the types packages) is transparent: the origin
@@ -638,6 +642,10 @@ func (b *builder) load(u *ssa.UnOp) *Expr {
 	case *ssa.Alloc:
 		if b.rd != nil && r.Parent() == b.fn {
 			if b.rd.captured[r] {
+				if p := paramSpill(r); p != nil {
+					// a parameter that lives on the heap only because a function literal reads it
+					return projectPath(b.expr(p), r.Type(), path)
+				}
 				return projectPath(&Expr{Op: "captured", Name: r.Comment, V: r}, r.Type(), path)
 			}
 			return b.rd.at(u, r, path)
@@ -662,6 +670,14 @@ func (b *builder) load(u *ssa.UnOp) *Expr {
 	default:
 		if pr, ok := root.(*ssa.Parameter); ok && b.rd != nil && len(b.rd.defs[pr]) > 0 {
 			return b.rd.at(u, pr, path)
+		}
+		if cv, ok := root.(*ssa.Call); ok && b.rd != nil && isStructPtr(cv.Type()) && cv.Parent() == b.fn {
+			if b.rd.untracked[cv] {
+				return projectPath(&Expr{Op: "captured", Name: cv.Name(), V: cv}, cv.Type(), path)
+			}
+			if len(b.rd.defs[cv]) > 0 {
+				return b.rd.at(u, cv, path)
+			}
 		}
 		// pointer held in a parameter / call result / field: external memory
 		base := b.expr(root)
@@ -702,9 +718,13 @@ type reachDefs struct {
 	busy map[rdKey]bool
 	// allocs captured by a closure: their content may change at any call
 	captured map[*ssa.Alloc]bool
-	loopHits int
-	cnt      map[rdKey]*Expr
-	cntBusy  map[rdKey]bool
+	// records made by a helper and handed back by pointer (`ledger := newLedger()`): tracked like a local when the pointer
+	// is used only to read and write fields and as a call argument; untracked[v] when it goes anywhere else (bound into a
+	// function value, stored, merged with another pointer)
+	untracked map[*ssa.Call]bool
+	loopHits  int
+	cnt       map[rdKey]*Expr
+	cntBusy   map[rdKey]bool
 }
 
 type rdDef struct {
@@ -724,7 +744,7 @@ type rdKey struct {
 }
 
 func newReachDefs(b *builder) *reachDefs {
-	rd := &reachDefs{b: b, defs: map[ssa.Value][]rdDef{}, memo: map[rdKey]*Expr{}, busy: map[rdKey]bool{}, captured: map[*ssa.Alloc]bool{}}
+	rd := &reachDefs{b: b, defs: map[ssa.Value][]rdDef{}, memo: map[rdKey]*Expr{}, busy: map[rdKey]bool{}, captured: map[*ssa.Alloc]bool{}, untracked: map[*ssa.Call]bool{}}
 	if b.fn == nil {
 		return rd
 	}
@@ -742,6 +762,8 @@ func newReachDefs(b *builder) *reachDefs {
 				root, path := addrPath(x.Addr)
 				if a, ok := root.(*ssa.Alloc); ok {
 					rd.defs[a] = append(rd.defs[a], rdDef{in: in, path: path, val: x.Val, blk: blk, idx: i})
+				} else if cv, ok := root.(*ssa.Call); ok && isStructPtr(cv.Type()) {
+					rd.defs[cv] = append(rd.defs[cv], rdDef{in: in, path: path, val: x.Val, blk: blk, idx: i})
 				} else if pr, ok := root.(*ssa.Parameter); ok && isStructPtr(pr.Type()) {
 					// a struct handed in by pointer and filled in here: its cells are tracked like a local's,
 					// starting from the caller's content
@@ -761,6 +783,12 @@ func newReachDefs(b *builder) *reachDefs {
 						}
 						call, _ := in.(*ssa.Call)
 						rd.defs[a] = append(rd.defs[a], rdDef{in: in, path: path, esc: call, ai: ai, blk: blk, idx: i})
+					} else if cv, ok := root.(*ssa.Call); ok && isStructPtr(cv.Type()) {
+						if b.w.argReadOnly(x, ai, 0) {
+							continue
+						}
+						call, _ := in.(*ssa.Call)
+						rd.defs[cv] = append(rd.defs[cv], rdDef{in: in, path: path, esc: call, ai: ai, blk: blk, idx: i})
 					} else if pr, ok := root.(*ssa.Parameter); ok && isStructPtr(pr.Type()) {
 						if b.w.argReadOnly(x, ai, 0) {
 							continue
@@ -772,7 +800,59 @@ func newReachDefs(b *builder) *reachDefs {
 			}
 		}
 	}
+	for _, blk := range b.fn.Blocks {
+		for _, in := range blk.Instrs {
+			if cv, ok := in.(*ssa.Call); ok && isStructPtr(cv.Type()) && !pointerUsedAsRecordOnly(cv) {
+				rd.untracked[cv] = true
+			}
+		}
+	}
 	return rd
+}
+
+// pointerUsedAsRecordOnly: every use of the pointer value v reads or writes a field through it, loads the whole record,
+// compares it with nil, hands it to a call, or returns it.
+func pointerUsedAsRecordOnly(v ssa.Value) bool {
+	refs := v.Referrers()
+	if refs == nil {
+		return true
+	}
+	for _, r := range *refs {
+		switch x := r.(type) {
+		case *ssa.FieldAddr, *ssa.DebugRef, *ssa.Return:
+		case *ssa.UnOp:
+			if x.Op != token.MUL {
+				return false
+			}
+		case *ssa.BinOp:
+		case ssa.CallInstruction:
+			if _, isGo := r.(*ssa.Go); isGo {
+				return false
+			}
+		default:
+			return false
+		}
+	}
+	return true
+}
+
+// trackedRecord: v (through conversions) is a pointer whose record is followed by reaching definitions in this function:
+// a local that no function value captured, or a record a helper made and handed back that is written here.
+func (rd *reachDefs) trackedRecord(v ssa.Value) ssa.Value {
+	if rd == nil {
+		return nil
+	}
+	switch x := stripConv(v).(type) {
+	case *ssa.Alloc:
+		if x.Parent() == rd.b.fn && !rd.captured[x] {
+			return x
+		}
+	case *ssa.Call:
+		if x.Parent() == rd.b.fn && len(rd.defs[x]) > 0 && !rd.untracked[x] {
+			return x
+		}
+	}
+	return nil
 }
 
 func isStructPtr(t types.Type) bool {
@@ -836,6 +916,10 @@ func (rd *reachDefs) scan(blk *ssa.BasicBlock, idx int, a ssa.Value, path []int)
 		in := blk.Instrs[i]
 		if al, isAlloc := a.(*ssa.Alloc); isAlloc && in == ssa.Instruction(al) {
 			return &Expr{Op: "zero", Name: typeShort(cellT), T: cellT}
+		}
+		if cv, isCall := a.(*ssa.Call); isCall && in == ssa.Instruction(cv) {
+			// what the helper that made the record left in it
+			return projectPath(rd.b.expr(cv), cv.Type(), path)
 		}
 		for _, d := range rd.defs[a] {
 			if d.in != in {
@@ -1214,6 +1298,16 @@ func (w *World) Summary(fn *ssa.Function) *Expr {
 			}
 			empties := w.emptyAt(fn, r, b)
 			for i, v := range r.Results {
+				// a record created here and handed back by pointer: what it holds at this return (its fields may have been
+				// filled in by helpers it was handed to)
+				if al, ok := v.(*ssa.Alloc); ok && al.Heap && b.rd != nil && !b.rd.captured[al] {
+					if _, isStruct := deref(al.Type()).Underlying().(*types.Struct); isStruct {
+						if c := b.rd.at(r, al, nil); c != nil && c.Op == "struct" {
+							alts[i] = append(alts[i], &Expr{Op: "ref", Args: []*Expr{c}, V: al})
+							continue
+						}
+					}
+				}
 				alts[i] = append(alts[i], annotateEmpty(b.expr(v), empties))
 			}
 		}
@@ -2205,6 +2299,22 @@ func (w *World) PathTuples(ret *ssa.Return, maxPaths int) ([][]*Expr, bool) {
 					t[i] = b.expr(cur[i].phi)
 				default:
 					t[i] = &Expr{Op: "zero", Name: "unset"}
+				}
+			}
+			// a result that mentions another result's variable (`return claim, deposit.Sub(claim)`) means what that variable
+			// holds on this path
+			for i := range start {
+				if start[i].phi == nil && start[i].alloc == nil || t[i] == nil {
+					continue
+				}
+				whole := b.expr(ret.Results[i])
+				if EqualExpr(whole, t[i]) {
+					continue
+				}
+				for j := range t {
+					if j != i && t[j] != nil {
+						t[j] = Replace(t[j], whole, t[i])
+					}
 				}
 			}
 			// the values are resolved; the way from the entry to here may still contradict the verdicts tested so far
